@@ -112,7 +112,15 @@ func TestVerif_C44_Resolve(t *testing.T) {
 			set(network.Developer.String(), "true")
 		}
 		var file strings.Builder
-		file.WriteString("[ethereum]\nURL = \"ws://127.0.0.1:8546\"\nKeyFile = \"/tmp/verif-keyfile\"\n\n[storage]\nDir = \"/tmp/verif-storage\"\n\n")
+		// optionally the file itself names a network (the `network` key of the ethereum / bitcoin
+		// sections) that differs from the one selected by the flags: the selection must win
+		ethNetLine, btcNetSection := "", ""
+		if c.Get("netInFile").Str() == "other" {
+			other := map[string]int{"mainnet": 3, "testnet": 1, "developer": 2}[c.Get("expected").Get("network").Str()]
+			ethNetLine = fmt.Sprintf("Network = %d\n", other)
+			btcNetSection = fmt.Sprintf("[bitcoin]\nNetwork = %d\n\n", other)
+		}
+		file.WriteString("[ethereum]\nURL = \"ws://127.0.0.1:8546\"\nKeyFile = \"/tmp/verif-keyfile\"\n" + ethNetLine + "\n[storage]\nDir = \"/tmp/verif-storage\"\n\n" + btcNetSection)
 		wantPeers := explicitPeers
 		switch c.Get("peers").Str() {
 		case "fileSingle":
